@@ -115,6 +115,7 @@ func c18(c *Ctx) {
 	defer c18everyAttemptCounted(c)
 	defer c18selectCommitsLast(c)
 	defer c18dsnPathEscaped(c)
+	defer c18passwordComparedExactly(c)
 	P, R := c.P, c.R
 	R.Explain("R18.1", "guarded-by-login (T-DOM, inter-procedural): in internal/session every method call on Session.state (other than the nil-safe getters, derived: methods that begin with a receiver nil test) is dominated by the non-nil edge of a test of s.state in the same function or, failing that, at every static call site of the function up to 4 frames; closures inherit the guard that dominates their creation.")
 	R.Explain("R18.2", "T-WRITERS: Session.state is assigned only in handleLogin, from the result of Backend.GetState on its nil-error edge; State.user only in NewState; StateUserInterfaceImpl.u only in its constructor (a state can only reach the database/store/connector of the user it was created for).")
@@ -820,4 +821,53 @@ func c18dsnPathEscaped(c *Ctx) {
 		}
 	}
 	R.Min("R18.8", "`file:` URIs built in the sqlite3 package", n, 1)
+}
+
+// c18passwordComparedExactly (R18.9): gluon's own connector compares the password byte for byte.
+func c18passwordComparedExactly(c *Ctx) {
+	P, R := c.P, c.R
+	R.Explain("R18.9", "wrong credentials never authenticate: in every Authorize method of the repository's own connector implementations (package connector) the password bytes reach no case-folding or normalising function (bytes/strings EqualFold, ToLower, ToUpper, Title, TrimSpace, Fields ...): they are compared as they are.  A case-insensitive comparison lets `PASS` log into the account whose password is `pass`, and lets one user open another's mailboxes when their passwords differ only in case.")
+	n := 0
+	for _, f := range c.funcsInPkg("connector") {
+		if f.Parent() != nil || engine.BaseName(f) != "Authorize" || f.Signature.Recv() == nil {
+			continue
+		}
+		var pw *ssa.Parameter
+		for _, p := range f.Params {
+			if sl, ok := p.Type().Underlying().(*types.Slice); ok {
+				if b, ok := sl.Elem().Underlying().(*types.Basic); ok && b.Kind() == types.Byte {
+					pw = p
+				}
+			}
+		}
+		if pw == nil {
+			continue
+		}
+		n++
+		bad := ""
+		for _, g := range engine.WithClosures(f) {
+			for _, cs := range engine.Calls(g) {
+				sc := cs.Common().StaticCallee()
+				if sc == nil {
+					continue
+				}
+				pk := engine.PkgPathOf(sc)
+				if pk != "bytes" && pk != "strings" && pk != "unicode" {
+					continue
+				}
+				switch sc.Name() {
+				case "EqualFold", "ToLower", "ToUpper", "ToTitle", "Title", "TrimSpace", "Trim", "TrimRight", "TrimLeft", "Fields", "Map", "ToValidUTF8":
+				default:
+					continue
+				}
+				for _, a := range cs.Common().Args {
+					if engine.AnyBackward(a, engine.FlowOpts{Loads: true}, func(x ssa.Value) bool { return x == ssa.Value(pw) }) {
+						bad = P.Pos(cs.Pos()) + " " + pk + "." + sc.Name()
+					}
+				}
+			}
+		}
+		R.Check(bad == "", "R18.9", c.name(f)+"|password compared as it is", P.Pos(f.Pos()), "no folding / normalising of the password", "the password is passed through a case-folding or normalising function ("+bad+"): a password that differs only in letter case (or padding) authenticates")
+	}
+	R.Min("R18.9", "Authorize methods of the repository's connectors", n, 1)
 }
